@@ -769,11 +769,11 @@ class C15(Prop):
     assumptions = [
         "model: coq/model/NameGen.v mirrors NameMap::build (hand-written; tied by correspondence on every symbol's generated name); reserved lists regenerated from hlsl/src/names.rs and msl/src/names.rs, the shape of the suffix format / sort / kept-name logic is checked by the translator",
         "the symbol table of each case is serialised from the typed module in the order build() visits it",
-        "what is a reserved word of the target = the exporter's RESERVED_NAMES (after the repairs: SamplerState typo, Metal address-space keywords)",
+        "what is a reserved word of the target: the reviewed lists of coq/model/TargetWords.v (C++14 keywords and alternative tokens, HLSL keywords and built-in types, Metal address spaces, qualifiers and global scalar types; written by hand from the languages' documents, part of the trusted base) - `C15_target_words_are_reserved` shows each is an entry of the exporter's regenerated RESERVED_NAMES, and corpus/C15/target_words.txt probes each in every declaration position",
         "names the generator never sees (struct members, enum values, cbuffer names and members, template parameters) are outside the model; they are probed on the emitted text and recorded as known findings",
         "'every use refers to the entity it referred to': proved for the path model (coq/model/Scopes.v, `C15_emitted_path_names_its_symbol`: the path `emit` writes for a symbol resolves, by the front end's lookup, to that symbol from every use site, under every stack of local frames); tied by running `Scopes.emit` against NameMap::get_name_qualified for every symbol x every use site (root and each namespace) of every table case, incl. programs of shadowing names three namespaces deep with enum values, members and methods of the same names; and end to end by U cases: the emitted HLSL of such programs is read back by the front end and every function body must name the same entities",
         "the environment handed to `Scopes.emit` (which namespaces exist, what each declares, which names are members / locals / methods) is built from the case's symbol table by the extraction glue (coq/extract/EC15.v), not proved",
-        "renaming equivariance is not proved",
+        "renaming: proved for one scope of the name generator whose names are fresh (`C15_renaming_renames_the_result`, coq/proofs/NameGenEquiv.v); not proved for local variables or for the stages around the generator, which the renaming / probe runs sample",
     ]
 
     def known_class(self, case, impl, model):
@@ -1223,7 +1223,11 @@ class C12(Prop):
                 eager = ("ok",)
             if len(eager) > 2 and eager[2]:
                 return "paste-empty-operand"
-        if cyc and ref[0] == "ok" and main.startswith("OK"):
+        painted = len(ref) > 4 and ref[4]
+        if (cyc or painted) and ref[0] == "ok" and main.startswith("OK"):
+            return "recursive-macro-rescan"
+        # the token that C keeps unexpanded for good is an invocation with the wrong number of arguments when expanded again
+        if painted and ref[0] == "ok" and main.startswith("ERR MacroExpectsDifferentNumberOfArguments"):
             return "recursive-macro-rescan"
         if len(ref) > 3 and ref[3] and ref[0] == "ok" and main.startswith("OK"):
             return "function-macro-name-followed-by-macro"
@@ -1308,7 +1312,7 @@ class C14(Prop):
     n_thorough = 20000
     design_ref = "DESIGN.md §4 C14"
     assumptions = [
-        "proved for the lexer model of C10 (coq/model/Lexer.v, tied to preprocess/src/lexer.rs by C10's correspondence run and regenerated tables), partial: a blank (space, tab, line feed) directly after an identifier, keyword, reserved word, operator symbol or string literal leaves that token and, from there on, the sequence of non-whitespace tokens unchanged (C14_*_partial); numeric literals in front of the blank, comments / line splices as the inserted trivia, and the layers after the lexer are not covered by a theorem",
+        "proved for the lexer model of C10 (coq/model/Lexer.v, tied to preprocess/src/lexer.rs by C10's correspondence run and regenerated tables), partial: a blank (space, tab, line feed) directly after an identifier, keyword, reserved word, operator symbol or string literal leaves that token and, from there on, the sequence of non-whitespace tokens unchanged; so does any run of blanks, block comments, line comments with their line feed and line splices after such a token that does not begin with a slash (C14_*_partial); numeric literals in front of the trivia, tokens before the one in front of the insertion point, and the layers after the lexer are not covered by a theorem",
         "proved: the location arithmetic of SourceManager (line/column decoding, per-file ranges); the model is compared with SourceManager on every offset of small multi-file sets",
         "observed on the implementation only (metamorphic): a program and the same program with trivia inserted at token boundaries (never directly after < or >, never between a #define name and its parenthesis, inline trivia only inside directive lines, #include/#pragma lines untouched) give byte-identical output and metadata on HLSL and MSL, or the same messages; k lines in front of every file move every reported line by k with file, column, message, source excerpt and caret line unchanged",
         "token boundaries are found by a coarse tokenizer of the harness whose pieces are unions of real tokens (identifiers, numbers with fraction / exponent / suffix, the period of a member access or swizzle, strings, runs of operator characters, single other characters), so every insertion point is a real token boundary (not every real boundary is tried); when a varied program differs, each insertion is tried alone and the first that is enough is reported with the text around it",
@@ -1697,6 +1701,7 @@ class C08(Prop):
         ("declared-function-without-definition", r"(hlsl/src/ast_generate|msl/src/generator)\.rs", "generate_function_inner", r"called `Option::unwrap\(\)` on a `None` value"),
         ("type-named-like-function", r"typer/src/typer/scopes\.rs", "find_identifier_in_scope", r"assertion failed: overloads\.is_empty\(\)"),
         ("template-value-parameter-used-as-type", r"typer/src/typer/scopes\.rs", "find_identifier_in_scope", r"internal error: entered unreachable code"),
+        ("struct-inherits-methods", r"typer/src/typer/structs\.rs", None, r"not yet implemented: Inherited methods are not implemented"),
     ]
 
     def kind(self, case):
@@ -1740,6 +1745,9 @@ class C08(Prop):
                 return "huge-bind-group-index"
             if _nesting(text) >= 400:
                 return "deep-nesting-stack-overflow"
+            # a template that instantiates itself with a larger argument each time: the two recorded programs
+            if re.search(r"\bF corpus/programs/endless_(struct|function)_template\.rssl$", case.strip()):
+                return "endless-template-instantiation"
             return None
         return None
 
